@@ -1,5 +1,8 @@
 import StunVerif.Props.C03
+import StunVerif.Props.C03Write
 #print axioms StunVerif.C03.build_shape
 #print axioms StunVerif.C03.roundtrip
 #print axioms StunVerif.C03.typed_roundtrip
 #print axioms StunVerif.C03.class_method_roundtrip
+#print axioms StunVerif.C03.roundtrip_write_into
+#print axioms StunVerif.C03.sealed_write_into_validates
